@@ -18,8 +18,9 @@ Reused: the `LeafUpdater` mirror and its one-worker loop (`Store/LeafUpdModel.le
 (`Store/OvfModel.lean`).  `none` = a panic site (or the fuel of a loop, which is never the answer: `Store/StageGlueTotal.lean`).
 
 The instrumented workers `leafWorker` / `branchWorker` run the existing loops (`LeafUpd.resetTo`, `BranchUpd.resetTo`, `digest`,
-`ingest`) and perform, at the program points where the Rust does, the tracker calls and the page allocations; erasing the
-tracker gives back `LeafUpd.runWorker` / `BranchUpd.runWorker` (`Store/StageGlueErase.lean`), so every theorem about those applies.
+`ingest`) and record, at the program points where the Rust makes them, the calls on the worker's `NodesTracker` (`Ev`); the
+tracker is the fold `runEvs` of these calls in order.  Erasing the record gives back `LeafUpd.runWorker` /
+`BranchUpd.runWorker` (`Store/StageGlueErase.lean`), so every theorem about those applies.
 -/
 namespace Nomt.StageGlue
 open Nomt
@@ -140,31 +141,40 @@ def enforceFirst (seeded : Bool) (lvl : Level) (cs : List (Nat × Option Nat)) :
 
 variable {V : Type} [CellSize V]
 
-/-- one worker of the leaf stage with its `LeavesTracker` and the number of `allocate()` calls of the sync so far -/
+/-- a call of the worker on its `NodesTracker` -/
+inductive Ev (N : Type) where
+  /-- `tracker.delete(key, pn, next_separator)` (in `reset_*_base_fresh`) -/
+  | del (key pn : Nat) (next : Option Nat)
+  /-- `handle_new_*`: `allocate()`, the write, `tracker.insert(key, node, next_separator, page_number)` -/
+  | ins (key : Nat) (node : N) (next : Option Nat)
+
+/-- the tracker after the calls `evs`, in order; `a` = number of `allocate()` calls of the sync so far.
+`none` = `assert!(entry.deleted.is_none())` of `NodesTracker::delete` -/
+def runEvs {N : Type} : Tracker N → Nat → List (Ev N) → Option (Tracker N × Nat)
+  | t, a, [] => some (t, a)
+  | t, a, .del k pn nx :: r =>
+    match t.delete k pn nx with
+    | none => none
+    | some t' => runEvs t' a r
+  | t, a, .ins k n nx :: r => runEvs (t.insert k n nx (.new 0 a)) (a + 1) r
+
+/-- one worker of the leaf stage: the updater's run and the calls on its `LeavesTracker`, in order -/
 structure LRun (V : Type) where
   r : LeafUpd.Run V
-  tr : Tracker (Leaf V) := {}
-  alloc : Nat := 0
+  evs : List (Ev (Leaf V)) := []
 
-/-- `reset_leaf_base_fresh`: `leaves_tracker.delete(separator, leaf_pn, cutoff)` for the leaf that becomes the base
-(`none` = `assert!(entry.deleted.is_none())`); the leaf comes from `prepared_leaves`, the leaf cache or the store — the
-same node in all three cases -/
-def resetToT (lpn : Nat → Nat) (key : Nat) (x : LRun V) : Option (LRun V) :=
+/-- `reset_leaf_base_fresh`: `leaves_tracker.delete(separator, leaf_pn, cutoff)` for the leaf that becomes the base; the
+leaf comes from `prepared_leaves`, the leaf cache or the store — the same node in all three cases -/
+def resetToT (lpn : Nat → Nat) (key : Nat) (x : LRun V) : LRun V :=
   match LeafUpd.skipTo key x.r.rest with
   | (_, l :: rest') =>
-    match x.tr.delete l.sep (lpn l.sep) (rest'.head?.map (·.sep)) with
-    | none => none
-    | some tr => some { x with r := LeafUpd.resetTo key x.r, tr := tr }
-  | (_, []) => some { x with r := LeafUpd.resetTo key x.r }
+    { r := LeafUpd.resetTo key x.r, evs := x.evs ++ [.del l.sep (lpn l.sep) (rest'.head?.map (·.sep))] }
+  | (_, []) => { x with r := LeafUpd.resetTo key x.r }
 
-/-- `handle_new_leaf` for the leaves of one `digest`: allocate, (write), `leaves_tracker.insert` -/
-def handleNewT (x : LRun V) : List (Leaf V) → LRun V
-  | [] => x
-  | l :: rest => handleNewT { x with tr := x.tr.insert l.sep l l.cutoff (.new 0 x.alloc), alloc := x.alloc + 1 } rest
-
-/-- the state after a `digest` that produced `leaves` -/
+/-- the state after a `digest` that produced `leaves`: one `handle_new_leaf` per leaf -/
 def afterDigest (x : LRun V) (st' : LeafUpd.St V) (leaves : List (Leaf V)) : LRun V :=
-  handleNewT { x with r := { x.r with st := st', out := x.r.out ++ leaves.map .new } } leaves
+  { r := { x.r with st := st', out := x.r.out ++ leaves.map .new },
+    evs := x.evs ++ leaves.map fun l => .ins l.sep l l.cutoff }
 
 def scopeLoopT (sepf : Nat → Nat → Option Nat) (lpn : Nat → Nat) (key : Nat) : (fuel : Nat) → LRun V → Option (LRun V)
   | 0, _ => none
@@ -174,9 +184,7 @@ def scopeLoopT (sepf : Nat → Nat → Option Nat) (lpn : Nat → Nat) (key : Na
     | none => none
     | some (st', leaves, res) =>
       let k := match res with | .needsMerge c => c | .finished => key
-      match resetToT lpn k (afterDigest x st' leaves) with
-      | none => none
-      | some x' => scopeLoopT sepf lpn key fuel x'
+      scopeLoopT sepf lpn key fuel (resetToT lpn k (afterDigest x st' leaves))
 
 def runChangesT (sepf : Nat → Nat → Option Nat) (lpn : Nat → Nat) :
     List (Nat × Option (V × Bool)) → LRun V → Option (LRun V)
@@ -197,23 +205,17 @@ def finishLoopT (sepf : Nat → Nat → Option Nat) (lpn : Nat → Nat) : (fuel 
       let x' := afterDigest x st' leaves
       match res with
       | .finished => some x'
-      | .needsMerge c =>
-        match resetToT lpn c x' with
-        | none => none
-        | some x'' => finishLoopT sepf lpn fuel x''
+      | .needsMerge c => finishLoopT sepf lpn fuel (resetToT lpn c x')
 
 /-- `run_worker` of the leaf stage for the one worker that covers everything (`cs` non-empty) -/
 def leafWorker (sepf : Nat → Nat → Option Nat) (lpn : Nat → Nat) (db : List (DbLeaf V))
-    (cs : List (Nat × Option (V × Bool))) (alloc0 : Nat) : Option (LRun V) :=
+    (cs : List (Nat × Option (V × Bool))) : Option (LRun V) :=
   match cs with
   | [] => none                                                       -- `changeset[worker_params.op_range.start]`
   | (k, _) :: _ =>
-    match resetToT lpn k { r := { rest := db }, alloc := alloc0 } with
+    match runChangesT sepf lpn cs (resetToT lpn k { r := { rest := db } }) with
     | none => none
-    | some x =>
-      match runChangesT sepf lpn cs x with
-      | none => none
-      | some x => finishLoopT sepf lpn (x.r.rest.length + 1) x
+    | some x => finishLoopT sepf lpn (x.r.rest.length + 1) x
 
 /-- `LeafStageOutput` (+ the leaf level the stage leaves behind, for the theorems) -/
 structure LeafOut (V : Type) where
@@ -251,13 +253,16 @@ def trackerInserted {N : Type} (fresh : Nat → Nat) (inner : Inner N) : List (N
 def leafStage (sepf : Nat → Nat → Option Nat) (pagesOf : V → List Nat) (fresh : Nat → Nat) (seeded : Bool)
     (lvl : Level) (lpn : Nat → Nat) (db : List (DbLeaf V)) (cs : List (Nat × Option (V × Bool))) (ovfAllocs : Nat) :
     Option (LeafOut V) :=
-  match leafWorker sepf lpn db cs ovfAllocs with
+  match leafWorker sepf lpn db cs with
   | none => none
   | some x =>
-    let changes := trackerChanges fresh x.tr.inner
+  match runEvs {} ovfAllocs x.evs with
+  | none => none
+  | some (tr, alloc) =>
+    let changes := trackerChanges fresh tr.inner
     -- `apply_worker_changes`: overflow cells first, then the tracker in key order, then `extra_freed`
-    let freed := x.r.log.flatMap pagesOf ++ trackerFreed x.tr.inner ++ x.tr.extraFreed.map (resolve fresh)
-    let inserted := trackerInserted fresh x.tr.inner
+    let freed := x.r.log.flatMap pagesOf ++ trackerFreed tr.inner ++ tr.extraFreed.map (resolve fresh)
+    let inserted := trackerInserted fresh tr.inner
     match filterCs true changes with
     | none => none
     | some filtered =>
@@ -265,35 +270,29 @@ def leafStage (sepf : Nat → Nat → Option Nat) (pagesOf : V → List Nat) (fr
       | none => none
       | some enforced =>
         some { changeset := enforced, freed := freed,
-               submittedIo := ovfAllocs + inserted.length + x.tr.extraFreed.length,
-               postIo := inserted, allocs := x.alloc, level := x.r.out ++ x.r.rest.map .old }
+               submittedIo := ovfAllocs + inserted.length + tr.extraFreed.length,
+               postIo := inserted, allocs := alloc, level := x.r.out ++ x.r.rest.map .old }
 
 /-! ## the branch stage -/
 
-/-- one worker of the branch stage with its `BranchesTracker` -/
+/-- one worker of the branch stage: the updater's run and the calls on its `BranchesTracker`, in order -/
 structure BRun where
   r : BranchUpd.Run
-  tr : Tracker BranchUpd.Node := {}
-  alloc : Nat := 0
+  evs : List (Ev BranchUpd.Node) := []
 
 /-- `reset_branch_base_fresh`: `branches_tracker.delete(separator, bbn_pn, cutoff)` -/
-def resetToB (key : Nat) (x : BRun) : Option BRun :=
+def resetToB (key : Nat) (x : BRun) : BRun :=
   match BranchUpd.skipTo key x.r.rest with
   | (_, l :: rest') =>
     if l.sep ≤ key then
-      match x.tr.delete l.sep l.bbn (rest'.head?.map (·.sep)) with
-      | none => none
-      | some tr => some { x with r := BranchUpd.resetTo key x.r, tr := tr }
-    else some { x with r := BranchUpd.resetTo key x.r }
-  | (_, []) => some { x with r := BranchUpd.resetTo key x.r }
+      { r := BranchUpd.resetTo key x.r, evs := x.evs ++ [.del l.sep l.bbn (rest'.head?.map (·.sep))] }
+    else { x with r := BranchUpd.resetTo key x.r }
+  | (_, []) => { x with r := BranchUpd.resetTo key x.r }
 
-/-- `handle_new_branch`: allocate, `set_bbn_pn`, (write), `branches_tracker.insert` -/
-def handleNewB (x : BRun) : List BranchUpd.Produced → BRun
-  | [] => x
-  | p :: rest => handleNewB { x with tr := x.tr.insert p.sep p.node p.cutoff (.new 0 x.alloc), alloc := x.alloc + 1 } rest
-
+/-- one `handle_new_branch` (allocate, `set_bbn_pn`, the write, `branches_tracker.insert`) per produced node -/
 def afterDigestB (x : BRun) (st' : BranchUpd.St) (nodes : List BranchUpd.Produced) : BRun :=
-  handleNewB { x with r := { x.r with st := st', out := x.r.out ++ nodes.map .new } } nodes
+  { r := { x.r with st := st', out := x.r.out ++ nodes.map .new },
+    evs := x.evs ++ nodes.map fun p => .ins p.sep p.node p.cutoff }
 
 def scopeLoopB (kf : BranchUpd.KF) (key : Nat) : (fuel : Nat) → BRun → Option BRun
   | 0, _ => none
@@ -302,9 +301,7 @@ def scopeLoopB (kf : BranchUpd.KF) (key : Nat) : (fuel : Nat) → BRun → Optio
     match BranchUpd.digest kf x.r.st with
     | none => none
     | some (st', nodes, res) =>
-      match resetToB (BranchUpd.keyOf res key) (afterDigestB x st' nodes) with
-      | none => none
-      | some x' => scopeLoopB kf key fuel x'
+      scopeLoopB kf key fuel (resetToB (BranchUpd.keyOf res key) (afterDigestB x st' nodes))
 
 def runChangesB (kf : BranchUpd.KF) : List (Nat × Option Nat) → BRun → Option BRun
   | [], x => some x
@@ -325,21 +322,15 @@ def finishLoopB (kf : BranchUpd.KF) : (fuel : Nat) → BRun → Option BRun
       let x' := afterDigestB x st' nodes
       match res with
       | .finished => some x'
-      | .needsMerge c =>
-        match resetToB c x' with
-        | none => none
-        | some x'' => finishLoopB kf fuel x''
+      | .needsMerge c => finishLoopB kf fuel (resetToB c x')
 
 def branchWorker (kf : BranchUpd.KF) (db : List BranchUpd.DbNode) (cs : List (Nat × Option Nat)) : Option BRun :=
   match cs with
   | [] => none
   | (k, _) :: _ =>
-    match resetToB k { r := { rest := db } } with
+    match runChangesB kf cs (resetToB k { r := { rest := db } }) with
     | none => none
-    | some x =>
-      match runChangesB kf cs x with
-      | none => none
-      | some x => finishLoopB kf (x.r.rest.length + 1) x
+    | some x => finishLoopB kf (x.r.rest.length + 1) x
 
 /-- the branch index: (separator, page number, node), ascending — `Index` is a `BTreeMap<Key, Arc<BranchNode>>` -/
 abbrev BIndex := List BranchUpd.DbNode
@@ -380,14 +371,17 @@ def branchStage (kf : BranchUpd.KF) (fresh : Nat → Nat) (idx : BIndex) (cs : L
   match branchWorker kf idx cs with
   | none => none
   | some x =>
-    let changes := trackerNodes fresh x.tr.inner
+  match runEvs {} 0 x.evs with
+  | none => none
+  | some (tr, alloc) =>
+    let changes := trackerNodes fresh tr.inner
     match filterCs false changes with
     | none => none
     | some filtered =>
       some { index := applyToIndex idx filtered,
-             freed := trackerFreed x.tr.inner ++ x.tr.extraFreed.map (resolve fresh),
-             submittedIo := (trackerInserted fresh x.tr.inner).length + x.tr.extraFreed.length,
-             allocs := x.alloc, level := x.r.out ++ x.r.rest.map .old }
+             freed := trackerFreed tr.inner ++ tr.extraFreed.map (resolve fresh),
+             submittedIo := (trackerInserted fresh tr.inner).length + tr.extraFreed.length,
+             allocs := alloc, level := x.r.out ++ x.r.rest.map .old }
 
 /-! ## `update` -/
 
